@@ -179,7 +179,7 @@ static void add_bytes(rng_t *r, size_t n, int mode)
 }
 static void gen_conf_file(plan_t *p, rng_t *r, const char *name, int allow_exec, int vars)
 {
-    int kind = (int)rng_below(r, 12), nl = rng_range(r, 0, 25), level = !strcmp(name, "root.cfg") ? 0 : !strcmp(name, "inc.cfg") ? 1 : 2, selfinc = 0;
+    int kind = (int)rng_below(r, 12), nl = rng_range(r, 0, 25), level = !strcmp(name, "root.cfg") ? 0 : !strcmp(name, "inc.cfg") ? 1 : 2, selfinc = 0, nincl = 0;
     op_t *o;
     gbn = 0;
     if (kind == 0) { /* empty file */ }
@@ -197,7 +197,7 @@ static void gen_conf_file(plan_t *p, rng_t *r, const char *name, int allow_exec,
             else if (c < 66) {
                 /* include graph: root -> inc.cfg -> sub/s.cfg; a file may include itself at most once (a self-including file
                    recurses to the depth limit; two such lines would recurse 2^255 times) */
-                if (rng_chance(r, 1, 3)) add("%%include missing.cfg\n");
+                if (++nincl > 3 || rng_chance(r, 1, 3)) add("%%include missing.cfg\n");      /* at most three real includes per file keeps the work per plan bounded */
                 else if (level == 0) add("%%include %s\n", rng_chance(r, 1, 2) ? "inc.cfg" : "sub/s.cfg");
                 else if (level == 1) add("%%include sub/s.cfg\n");
                 else if (!selfinc && rng_chance(r, 1, 4)) { add("%%include sub/s.cfg\n"); selfinc = 1; }
